@@ -84,6 +84,7 @@ inline int igris_printf_v(Capture *cap, const char *fmt, ...)
     return r;
 }
 extern "C" int igc_vfdprintf(int fd, const char *format, va_list args);
+extern "C" int igc_snprintf(char *buf, size_t maxlen, const char *format, ...);
 inline int igris_fdprintf_v(int fd, const char *fmt, ...)
 {
     va_list ap;
@@ -112,6 +113,8 @@ struct Result
     bool do_sprintf = false;
     int sp_ret = 0;
     std::string sp_out;
+    int sn_ret = 0; // snprintf with maxlen = exactly the room the ISO output needs
+    std::string sn_out;
     // fdprintf route (the shim's vfdprintf into a memory file, read back)
     bool do_fdprintf = false;
     int fd_ret = 0;
@@ -155,6 +158,9 @@ template <class... Ts> void call_all(Result &r, const char *fmt, Ts... as)
         vpbt::Exact blk((size_t)r.host_ret + 1);
         r.sp_ret = igris_sprintf_v(blk.c(), fmt, as...);
         r.sp_out.assign(blk.c(), (size_t)r.host_ret + 1);
+        vpbt::Exact blk2((size_t)r.host_ret + 1);
+        r.sn_ret = igc_snprintf(blk2.c(), (size_t)r.host_ret + 1, fmt, as...);
+        r.sn_out.assign(blk2.c(), (size_t)r.host_ret + 1);
     }
 }
 #pragma clang diagnostic pop
